@@ -38,6 +38,7 @@ type TreePlan struct {
 	Order     []int       `json:"order,omitempty"` // delivery picks (index into remaining blocks)
 	Redeliver []int       `json:"redeliver,omitempty"`
 	Mode      int         `json:"mode,omitempty"`
+	Acts      []Act       `json:"acts,omitempty"` // delivery-phase actions on the observed node
 }
 
 // GenCfg draws a world configuration.
@@ -69,8 +70,13 @@ func GenSteps(rt *rapid.T, minN, maxN, maxBack, maxTx int) []BlockStep {
 	steps := make([]BlockStep, n)
 	for i := range steps {
 		back := 0
-		if maxBack > 0 && rapid.IntRange(0, 3).Draw(rt, "fork") == 3 {
-			back = rapid.IntRange(1, maxBack).Draw(rt, "back")
+		if maxBack > 0 {
+			switch rapid.IntRange(0, 7).Draw(rt, "fork") {
+			case 5:
+				back = -1 // a sibling: same parent as the previous step
+			case 6, 7:
+				back = rapid.IntRange(1, maxBack).Draw(rt, "back")
+			}
 		}
 		skip := 0
 		if rapid.IntRange(0, 5).Draw(rt, "skipq") == 5 {
@@ -252,6 +258,13 @@ func (w *World) MakeTxs(parent *model.BlockState, ops []TxOp, salt int) []*types
 // ParentFor resolves a step's parent among the blocks produced so far.
 func (w *World) ParentFor(back int) bc.Hash {
 	n := len(w.Order)
+	if back < 0 {
+		// sibling of the most recently produced block
+		if n < 2 {
+			return w.Order[0]
+		}
+		return w.Blocks[w.Order[n-1]].PreviousBlockHash
+	}
 	idx := n - 1 - back%n
 	return w.Order[idx]
 }
